@@ -98,6 +98,8 @@ func Main(args []string) int {
 	run.RequireMin("real:blocks-one-client-twice-one-address", 20)
 	run.RequireMin("mon:db-real-burn-total-statements", 100)
 	run.RequireMin("real:burn-tickets-expected", 200)
+	run.RequireMin("real:mints", 20)
+	run.RequireMin("mon:db-real-mint-total-statements", 15)
 	run.Assume("the event lists of layers 1 and 2 are generated from the contracts' emission code (zcnsc/burn.go, mint.go, stakepool, storagesc *_eventdb.go, Chain.ComputeState); the bridge contract itself is driven in the real-emission part (next assumption), the other contracts by engine schist")
 	run.Assume("real emission: burn, mint and add-authorizer transactions are executed through the real Chain.UpdateState on a genesis world (no storage / miner set-up, event database of the chain switched off); the events UpdateState returned for the block are what is merged and handled, so chain-level user events (emitted only with an event database attached) are not part of the real lists; the reference is read from the transactions (client, value, submitted payload, recorded output, balance change of the minting client)")
 	run.Assume("the event database is sqlite in memory: gorm-native handlers (burn tickets, user mint nonce, event rows) really execute; the Postgres-only batch updaters (UPDATE … FROM unnest(…)) cannot execute — their SQL text with bound arrays is captured from the gorm logger and judged, the execution by Postgres is out of reach")
